@@ -213,6 +213,8 @@ func cmdSynTrees(args []string) {
 			"stmts": []any{J{"k": "send", "all": false, "sent": eVar("m"), "src": J{"k": "seq", "s": []any{J{"k": "acct", "e": eAcct("world")}, J{"k": "ovdu", "e": eVar("acc")}, J{"k": "ovd", "e": eAcct("b"), "b": eMon(eAsset("USD"), eNum(5))}}},
 				"dst": J{"k": "ord", "cl": []any{J{"c": eVar("m"), "to": J{"k": "kept"}}}, "rem": J{"k": "acct", "e": eVar("acc")}}}}},
 		{"id": 2, "emptyvars": false, "vars": []any{}, "stmts": []any{J{"k": "call", "name": "set_account_meta", "args": jl(eAcct("a"), eStr("cl^"), eStr("^^"))}, J{"k": "save", "all": true, "sent": eAsset("USD"), "e": eAcct("a")}}},
+		// a string whose last character is a backslash (the lexer closes it there when no other quote follows on the line)
+		{"id": 3, "emptyvars": false, "vars": []any{}, "stmts": []any{J{"k": "call", "name": "set_tx_meta", "args": jl(eStr("k"), eStr(`C:\tmp\`))}}},
 	}
 	for i := 0; i < n; i++ {
 		if i < len(fixed) && n > len(fixed) {
